@@ -24,7 +24,9 @@ PROP = {
     ],
     # a timer closed twice must not close a descriptor that now belongs to another timer (descriptor-table component of C13)
     "runs": LOOP_RUNS + [RUN_FDS_SMALL],
-    "keys": ["timer-*", "closed-timer-revived", "schedule-while-scheduled-accepted", "scheduled-flag-wrong", "fds.foreign-close"],
+    "keys": ["timer-*", "closed-timer-revived", "schedule-while-scheduled-accepted", "scheduled-flag-wrong", "fds.foreign-close",
+             # a stale timer event must not put the loop to sleep: timers that come due meanwhile "run once the delay has passed if the loop keeps being polled"
+             "poll-blocked"],
     "secondary_keys": ["timer-never-fired-although-due", "timer-early", "timer-callback-after-cancel-or-close", "closed-timer-revived", "scheduled-flag-wrong",
                        "schedule-while-scheduled-accepted"],
     "rule": LOOP_RULE + "; timers use ticks of 12 ms, the harness compares the monotonic clock at the scheduling call with the clock at "
